@@ -1,7 +1,10 @@
-//! aisnone — the no-alloc build alone (nom without features). Reads a schedule on stdin:
-//!   L <decode 0|1> <hex line>
-//!   R                       (restart)
-//! and prints one canonical outcome per operation. Used by C18's fidelity cross-check.
+//! aisnone — the no-alloc build alone, linked with nom compiled WITHOUT any feature (in the
+//! main simulator binary cargo unifies nom's features to std+alloc for all three builds).
+//! Reads schedules on stdin:
+//!   N <nodes>                    new scenario with that many fresh parsers
+//!   L <node> <decode 0|1> <hex>  deliver a line
+//!   R <node>                     restart a node
+//! and prints one canonical outcome per L line. Used by C18's fidelity cross-check.
 
 use ais_none::sentence::{AisFragments, AisParser};
 use std::io::BufRead;
@@ -12,41 +15,49 @@ fn unhex(s: &str) -> Vec<u8> {
         .collect()
 }
 
+pub fn outcome_text(parser: &mut AisParser, bytes: &[u8], decode: bool) -> String {
+    let r = std::panic::catch_unwind(std::panic::AssertUnwindSafe(|| parser.parse(bytes, decode)));
+    match r {
+        Err(_) => "Panic".to_string(),
+        Ok(Err(ais_none::errors::Error::Nmea { .. })) => "ErrNmea".to_string(),
+        Ok(Err(ais_none::errors::Error::Checksum { expected, found })) => {
+            format!("ErrChecksum {} {}", expected, found)
+        }
+        Ok(Ok(AisFragments::Complete(s))) => format!("Complete {:?}", s),
+        Ok(Ok(AisFragments::Incomplete(s))) => format!("Incomplete {:?}", s),
+    }
+}
+
 fn main() {
+    std::panic::set_hook(Box::new(|_| {}));
     let stdin = std::io::stdin();
-    let mut parser = AisParser::new();
+    let mut parsers: Vec<AisParser> = vec![AisParser::new()];
     let mut out = String::new();
     for line in stdin.lock().lines() {
         let line = match line {
             Ok(l) => l,
             Err(_) => break,
         };
-        if line == "R" {
-            parser = AisParser::new();
-            out.push_str("restart\n");
-            continue;
-        }
-        if line == "N" {
-            // new scenario
-            parser = AisParser::new();
-            out.push_str("new\n");
-            continue;
-        }
         let mut it = line.split(' ');
-        if it.next() != Some("L") {
-            continue;
-        }
-        let decode = it.next() == Some("1");
-        let bytes = unhex(it.next().unwrap_or(""));
-        let r = std::panic::catch_unwind(std::panic::AssertUnwindSafe(|| parser.parse(&bytes, decode)));
-        match r {
-            Err(_) => out.push_str("Panic\n"),
-            Ok(Err(ais_none::errors::Error::Nmea { .. })) => out.push_str("ErrNmea\n"),
-            Ok(Err(ais_none::errors::Error::Checksum { expected, found })) => {
-                out.push_str(&format!("ErrChecksum {} {}\n", expected, found))
+        match it.next() {
+            Some("N") => {
+                let n: usize = it.next().and_then(|s| s.parse().ok()).unwrap_or(1).max(1);
+                parsers = (0..n).map(|_| AisParser::new()).collect();
             }
-            Ok(Ok(AisFragments::Complete(s))) => out.push_str(&format!("Complete {:?}\n", s)),
-            Ok(Ok(AisFragments::Incomplete(s))) => out.push_str(&format!("Incomplete {:?}\n", s)),
+            Some("R") => {
+                let n: usize = it.next().and_then(|s| s.parse().ok()).unwrap_or(0);
+                let n = n.min(parsers.len() - 1);
+                parsers[n] = AisParser::new();
+            }
+            Some("L") => {
+                let n: usize = it.next().and_then(|s| s.parse().ok()).unwrap_or(0);
+                let n = n.min(parsers.len() - 1);
+                let decode = it.next() == Some("1");
+                let bytes = unhex(it.next().unwrap_or(""));
+                out.push_str(&outcome_text(&mut parsers[n], &bytes, decode));
+                out.push('\n');
+            }
+            _ => {}
         }
     }
     print!("{}", out);
